@@ -408,7 +408,8 @@ def rule_discriminants(ctx):
     ri = A.get_fn(ctx.files, "impl/src/utils.rs", "attr::repr_int::<ReprInt as ParseMultiple>::parse_attr_with")
     t = A.fn_text(ri)
     called = {(A.path_str(c_["func"]) or "").split("::")[-1] for c_, _ in A.find(ri.block, "Expr::Call") if A.kind(c_["func"]) == "Expr::Path"}
-    helpers_txt = " ".join(str(A.fn_text(g_)) for g_ in A.functions(ri.file) if g_.name in called and g_.block is not None and g_.qual.split("::")[:-1] == ri.qual.split("::")[: len(g_.qual.split("::")) - 1])
+    mod_prefix = "::".join(ri.qual.split("::")[:2])
+    helpers_txt = " ".join(str(A.fn_text(g_)) for g_ in A.functions(ri.file) if g_.name in called and g_.block is not None and g_.qual.startswith(mod_prefix))
     names = re.findall(r'"([ui](?:8|16|32|64|128|size))"', str(t) + " ".join(A.render(e_) for e_ in A.referenced_consts(ri).values()) + helpers_txt)
     need(ctx, "repr:names", sorted(set(names)) == sorted(["u8", "u16", "u32", "u64", "u128", "usize", "i8", "i16", "i32", "i64", "i128", "isize"]), ctx.where(ri.file, ri.node), f"accepted repr integers are {sorted(set(names))}")
     # every hint is looked at, and a hint that is not the integer has its `(..)` body consumed: the callback leaves early
@@ -425,10 +426,25 @@ def rule_discriminants(ctx):
         if blk and len(prev) >= 2 and A.wfull(prev[-2].rstrip(";"), "repr=Some(ident.clone())") is not None and A.render(r) == "return Ok(())":
             good += 1
     cbt = A.render(cb["body"])
+    # the same decision written as two arms / branches: one stores the integer, the complementary one swallows the body
+    two_arms = False
+    if not rets:
+        store = next(((x, ps) for x, ps in A.find(cb["body"], "Expr::Assign") if A.render(x["left"]) == "repr" and A.render(x["right"]).startswith("Some(")), None)
+        swallow = next(((x, ps) for x, ps in A.find(cb["body"], "Expr::MethodCall") if "parse::<proc_macro2::Group>" in A.render(x)), None)
+        if store and swallow:
+            a1 = next((p for p in reversed(store[1]) if A.kind(p) == "Arm"), None)
+            a2 = next((p for p in reversed(swallow[1]) if A.kind(p) == "Arm"), None)
+            m1 = next((p for p in reversed(store[1]) if A.kind(p) == "Expr::Match"), None)
+            m2 = next((p for p in reversed(swallow[1]) if A.kind(p) == "Expr::Match"), None)
+            two_arms = a1 is not None and a2 is not None and a1 is not a2 and m1 is m2 and m1 is not None and A.render_pat(a2["pat"]) in ("_", "None") or False
+            if not two_arms:
+                i1 = next((p for p in reversed(store[1]) if A.kind(p) == "Expr::If"), None)
+                i2 = next((p for p in reversed(swallow[1]) if A.kind(p) == "Expr::If"), None)
+                two_arms = i1 is not None and i1 is i2 and RJ._within(store[0], i1["then_branch"]) and not RJ._within(swallow[0], i1["then_branch"])
     need(
         ctx,
         "repr:consume-other-hints",
-        len(rets) == good == 1 and "meta.input.parse::<proc_macro2::Group>()" in cbt,
+        (len(rets) == good == 1 and "meta.input.parse::<proc_macro2::Group>()" in cbt) or two_arms,
         ctx.where(ri.file, ri.node),
         f"the `parse_nested_meta` callback of `ReprInt` has {len(rets)} early exits ({good} right after storing the integer repr) / no longer swallows the `(..)` body of other hints: "
         "`#[repr(u8, align(2))]` then fails with \"expected `,`\" and no `TryFrom` impl is generated, although `#[repr(align(2), u8)]` works",
